@@ -354,6 +354,14 @@ def generate(rng, index, cfg):
         exc = rng.choice(["MemoryError", "RecursionError", "KeyboardInterrupt"])
         r = rng.random()
         if r < 0.4:
+            # transient global state exists during merges of both-sided source edits: prefer those as the aborted call
+            b, l, rr = pick_triple()
+            if rng.random() < 0.5:
+                inner = {"op": "decide", "base": b, "local": l, "remote": rr, "args": {}}
+            else:
+                inner = {"op": "merge", "base": b, "local": l, "remote": rr,
+                         "args": {"merge_strategy": rng.choice(["use-local", "use-remote", "use-base", "inline"]),
+                                  "input_strategy": rng.choice(["use-local", "use-remote", "use-base"])}}
             # place the fault at an instant at which process-global state is transiently modified
             return {"op": "aborted", "inner": inner, "dirty_pick": rng.random(), "func_pick": rng.random(), "line_pick": rng.random(), "exc": exc}
         if r < 0.75:
